@@ -17,6 +17,7 @@ from .facts import callee, op_place, strip_generics
 from .tables import switch_edges
 
 POLL = 'core::task::poll::Poll'
+UNSIGNED = ('usize', 'u8', 'u16', 'u32', 'u64', 'u128')
 
 
 class Semantics:
@@ -37,13 +38,14 @@ class Semantics:
 
 
 class PathState:
-    __slots__ = ('env', 'memo', 'alias', 'tags', 'pay', 'trail', 'seen')
+    __slots__ = ('env', 'memo', 'alias', 'tags', 'pay', 'num', 'trail', 'seen')
 
     def __init__(self, env):
         self.env = dict(env)
         self.memo = {}      # root key -> bool
         self.alias = {}     # (body id, local) -> root key
         self.tags = {}      # (body id, local) -> tag
+        self.num = {}       # (body id, local) -> '0' | '+' : an unsigned counter that is zero / has been incremented
         self.pay = {}       # (body id, local) -> bool payload of an Option<bool> / Result<bool, _> value held in that local
         self.trail = []
         self.seen = set()
@@ -54,6 +56,7 @@ class PathState:
         p.alias = dict(self.alias)
         p.tags = dict(self.tags)
         p.pay = dict(self.pay)
+        p.num = dict(self.num)
         p.trail = list(self.trail)
         p.seen = set(self.seen)
         return p
@@ -103,14 +106,24 @@ class Interp:
         path.memo.pop(k, None)
         path.tags.pop(k, None)
         path.pay.pop(k, None)
+        path.num.pop(k, None)
         kind = rv['k']
         src = None
+        if kind == 'bin':
+            self._arith(path, body, k, l, rv)
+            return
         if kind == 'use':
             o = rv['op']
             if 'int' in o and body.locals[l] == 'bool':
                 path.memo[k] = o['int'] != '0'
                 return
+            if 'int' in o and body.locals[l] in UNSIGNED:
+                path.num[k] = '0' if o['int'] == '0' else '+'
+                return
             src = op_place(o)
+            if src is not None and src.get('p') == ['f:0'] and (body.id, src['l']) in path.num and body.locals[l] in UNSIGNED:
+                path.num[k] = path.num[(body.id, src['l'])]          # the value half of a checked addition
+                return
         elif kind == 'ref':
             src = rv['pl']
         elif kind == 'cfd':
@@ -133,6 +146,8 @@ class Interp:
                 path.tags[k] = path.tags[sk]
             if sk in path.pay:
                 path.pay[k] = path.pay[sk]
+            if sk in path.num:
+                path.num[k] = path.num[sk]
         elif self._payload_place(src) and (body.id, src['l']) in path.pay and body.locals[l] == 'bool':
             path.memo[k] = path.pay[(body.id, src['l'])]
         elif upvars is not None and src['l'] == 1 and src.get('p') and src['p'][0].startswith('f:'):
@@ -140,6 +155,35 @@ class Interp:
             name = src['p'][0][2:]
             if name in upvars and all(e == '*' for e in src['p'][1:]):
                 path.alias[k] = upvars[name]
+
+    def _num_of(self, path, body, op):
+        if op is None:
+            return None
+        if 'int' in op:
+            return '0' if op['int'] == '0' else '+'
+        pl = op_place(op)
+        if pl is not None and not pl.get('p'):
+            return path.num.get((body.id, pl['l']))
+        return None
+
+    def _arith(self, path, body, k, l, rv):
+        """unsigned counters: 0 / incremented. `n = n + c` (checked or not) and comparisons of a counter with the constant 0"""
+        a, b = self._num_of(path, body, rv['a']), self._num_of(path, body, rv['b'])
+        bop = rv['bop']
+        if bop in ('Add', 'AddWithOverflow', 'AddUnchecked'):
+            if a is not None and b is not None:
+                path.num[k] = '+' if '+' in (a, b) else '0'
+            return
+        if body.locals[l] != 'bool' or a is None or b is None:
+            return
+        zero_b, zero_a = 'int' in rv['b'] and rv['b']['int'] == '0', 'int' in rv['a'] and rv['a']['int'] == '0'
+        v = None
+        if zero_b:      # a <op> 0
+            v = {'Eq': a == '0', 'Ne': a == '+', 'Gt': a == '+', 'Le': a == '0', 'Ge': True, 'Lt': False}.get(bop)
+        elif zero_a:    # 0 <op> b
+            v = {'Eq': b == '0', 'Ne': b == '+', 'Lt': b == '+', 'Ge': b == '0', 'Le': True, 'Gt': False}.get(bop)
+        if v is not None:
+            path.memo[k] = v
 
     @staticmethod
     def _payload_place(pl):
